@@ -45,7 +45,7 @@ M = [
  ('m-c12-early-exit', 'C12', [('src/ssh_audit/gextest.py', "                    if bits >= smallest_modulus > 0:", "                    if bits > smallest_modulus > 0:")], 'early exit off by one'),
  ('m-c12-second-pass-always', 'C12', [('src/ssh_audit/gextest.py', "if (smallest_modulus == 2048) and (banner is not None) and (banner.software is not None) and (banner.software.find('OpenSSH') != -1):", "if (smallest_modulus == 2048) and (banner is not None) and (banner.software is not None):")], 'second pass for every banner'),
  ('m-c12-threshold', 'C12', [('src/ssh_audit/gextest.py', "                    elif smallest_modulus < 3072:", "                    elif smallest_modulus <= 3072:")], '3072-bit modulus gets the 2048 warning'),
- ('m-c12-bytes', 'C12', [('src/ssh_audit/kexdh.py', "        return len(bin(self.__p)) - 2", "        return (len(bin(self.__p)) - 2 + 7) // 8 * 8 if len(bin(self.__p)) > 2 else 0")], 'modulus size rounded up to whole bytes (invisible for byte-aligned sizes: expected to be missed)'),
+ ('m-c12-bytes', 'C12', [('src/ssh_audit/kexdh.py', "        return len(bin(self.__p)) - 2", "        return (len(bin(self.__p)) - 2 + 7) // 8 * 8 if len(bin(self.__p)) > 2 else 0")], 'modulus size rounded up to whole bytes (a 2047-bit modulus becomes a 2048-bit one and loses its failure; visible since C12 has moduli off the byte grid)'),
  ('m-c13-levels', 'C13', [('src/ssh_audit/ssh_audit.py', "                    if points >= 10:\n                        level = 'critical'", "                    if points > 10:\n                        level = 'critical'")], 'exactly one failure is not critical'),
  ('m-c13-cert', 'C13', [('src/ssh_audit/algorithms.py', "                           (alg_type == 'key' and (('-cert-' in n) or (n.startswith('sk-')))) or \\", "                           (alg_type == 'key' and (n.startswith('sk-'))) or \\")], 'certificate key types recommended for addition'),
  ('m-c13-version', 'C13', [('src/ssh_audit/algorithms.py', "                            if (software is not None) and (software.compare_version(ssh_version) < 0):\n                                continue", "                            if (software is not None) and (software.compare_version(ssh_version) < 0) and alg_type != 'mac':\n                                continue")], 'version filter skipped for MACs'),
@@ -89,7 +89,6 @@ THOROUGH_ONLY = {'m-c07-racy-global'}     # races between two lines: found by li
 
 EQUIVALENT = {
  'm-c12-early-exit': 'only adds one redundant probe whose answer cannot be smaller for a monotone policy; the reported size is unchanged',
- 'm-c12-bytes': 'every modulus size of the quantifier is a multiple of 8',
  'm-c13-version': 'no MAC can be recommended for addition (non-ETM MACs carry a warning, unadvertised ETM MACs are suppressed) and extra removals are allowed by the statement',
  'm-c15-level-status': 'the added guard is always true',
  'm-c15-unsorted': 'the recommendation lines are generated in a deterministic order either way',
